@@ -116,6 +116,11 @@ func ptrConverter(dec *Decoder, o interface{}, p interface{}) {
 	}
 	if converter := GetConverter(reflect.TypeOf(o), t); converter != nil {
 		converter(dec, o, t2.PackEFace(*ptr))
+	} else if dec.Error == nil {
+		dec.Error = CastError{
+			Source:      reflect.TypeOf(o),
+			Destination: t,
+		}
 	}
 }
 
